@@ -456,6 +456,9 @@ def run_case(ck, desc):
     if view.shape[0] >= 3 and view.dtype.kind == "f":
         gappy = np.array(view, copy=True)
         gappy[[1, gappy.shape[0] // 2]] = np.nan
+        # ... and an INFINITE cell (an overflowed unit conversion, a sentinel): there the scalar call has a definite
+        # answer and the array cell is that answer
+        gappy[-1] = [np.inf, -np.inf][int(desc["pressures"][0] * 100) % 2]
         if view.shape[0] >= 6:
             gappy = np.concatenate([gappy, gappy])[::2].copy() if int(desc["pressures"][0] * 10) % 2 else gappy
         keep_ = gappy.copy()
@@ -473,8 +476,15 @@ def run_case(ck, desc):
             if og.shape != keep_.shape:
                 ck.violation("same-shape", {"fn": desc["fn"], "form": "array with blank cells", "got": list(og.shape), "want": list(keep_.shape)}, desc)
             else:
-                for k in np.flatnonzero(np.isfinite(keep_))[:12]:
-                    ref = float(sc_call(float(keep_[k])))
+                for k in list(np.flatnonzero(np.isfinite(keep_))[:12]) + list(np.flatnonzero(np.isinf(keep_))):
+                    try:
+                        with np.errstate(all="ignore"), warnings.catch_warnings():
+                            warnings.simplefilter("ignore")
+                            ref = float(sc_call(float(keep_[k])))
+                    except Exception:  # noqa: BLE001  (no scalar answer at an infinite pressure: nothing to compare)
+                        continue
+                    if (np.isnan(ref) and np.isnan(float(og[k]))) or (np.isinf(ref) and float(og[k]) == ref):
+                        continue
                     if not (abs(float(og[k]) - ref) <= 256 * eps * abs(ref) + 4 * np.finfo(float).eps * abs(ref)):
                         ck.violation("elementwise", {"fn": desc["fn"], "k": int(k), "p": float(keep_[k]), "array": float(og[k]), "scalar": ref, "array_has_blank_cells_elsewhere": True}, desc)
                         break
